@@ -80,6 +80,24 @@ class World(object):
         self.probes = {}
         self.faults = {}
         self.trace = []          # abstracted events (tuples of str)
+        self.known = []          # known-finding signatures (read-only input)
+
+    def known_match(self, sig):
+        """id of the known finding whose signature matches, else None.  Lets
+        a harness that enumerates faults continue past a recorded finding
+        instead of stopping at it (so the rest of the space is still judged)."""
+        for k in self.known:
+            ok = True
+            for key, want in k.get('signature', {}).items():
+                have = sig.get(key)
+                if isinstance(want, list):
+                    if have not in want:
+                        ok = False
+                elif have != want:
+                    ok = False
+            if ok:
+                return k.get('id')
+        return None
 
     def path(self, *names):
         return os.path.join(self.root, *names)
